@@ -42,6 +42,17 @@ Theorem C18_thread_mono : forall B N M ls s th,
   run step (init N M) ls = Some s -> In th (threads s) -> StronglySorted Z.lt (rev (t_out th)).
 Proof. exact c18_thread_mono. Qed.
 
+(* real-time order across threads: every value a thread obtains from calls it starts after a
+   state s1 exceeds `last s1`, which bounds every value handed out to any thread before s1 -
+   a call that starts after another call has returned gets a strictly larger timestamp *)
+Theorem C18_call_order : forall B N M ls1 ls2 s1 s2 t th1 th2,
+  (0 <= B /\ B + Z.of_nat (N * M) < i64_max /\ sched_ok B (ls1 ++ ls2) = true) ->
+  run step (init N M) ls1 = Some s1 -> nth_error (threads s1) t = Some th1 -> t_pc th1 = Idle ->
+  run step s1 ls2 = Some s2 -> nth_error (threads s2) t = Some th2 ->
+  exists newer, t_out th2 = newer ++ t_out th1 /\ Forall (fun v => last s1 < v) newer /\
+                (forall v, In v (handed_out s1) -> v <= last s1).
+Proof. exact c18_call_order. Qed.
+
 (* compute_next is strictly above `last` whatever the clock says (stall, repeat, step
    backwards, before the epoch), as long as last < i64::MAX *)
 Theorem C18_compute_next_gt : forall l c, 0 <= l < i64_max -> l < compute_next l c.
@@ -83,6 +94,11 @@ Theorem C18_accept_sample_complete : forall lastv t0 now t1,
   accept_sample lastv t0 (compute_next lastv (Some now)) t1 = true.
 Proof. exact accept_sample_complete. Qed.
 
+(* the two-phase acceptor: accepted => every first-phase value is below every second-phase value *)
+Theorem C18_phase_ok_sound : forall firsts seconds, phase_ok firsts seconds = true ->
+  forall f a s b, In f firsts -> In a f -> In s seconds -> In b s -> a < b.
+Proof. exact phase_ok_sound. Qed.
+
 (* the overflow guard cannot be dropped: a clock reading of i64::MAX makes the next value wrap
    to i64::MIN in the model (in Rust: panic with overflow checks, wrap without) *)
 Theorem C18_overflow_witness :
@@ -116,6 +132,7 @@ Print Assumptions C18_inv.
 Print Assumptions C18_cas_step.
 Print Assumptions C18_distinct.
 Print Assumptions C18_thread_mono.
+Print Assumptions C18_call_order.
 Print Assumptions C18_compute_next_gt.
 Print Assumptions C18_explicit.
 Print Assumptions C18_generated.
@@ -123,4 +140,5 @@ Print Assumptions C18_prop_ok_iff.
 Print Assumptions C18_model_accepted.
 Print Assumptions C18_accept_sample_sound.
 Print Assumptions C18_accept_sample_complete.
+Print Assumptions C18_phase_ok_sound.
 Print Assumptions C18_overflow_witness.
